@@ -16,6 +16,7 @@ import (
 type rng struct {
 	s     uint64
 	focus string // swarm: this run's projects are mostly of this kind ("" = the default mix)
+	small bool   // several tasks will work on the projects at once: keep single inputs moderate (step cap)
 }
 
 func (r *rng) next() uint64 {
@@ -176,6 +177,10 @@ func (g *gctx) scalar() (string, string) {
 	}
 	switch r.n(12) {
 	case 0:
+		if r.pct(25) {
+			k := r.n(100000)
+			return strconv.Itoa(k + r.n(3)), `{min: ` + strconv.Itoa(k) + `, max: ` + strconv.Itoa(k+1+r.n(50)) + `}`
+		}
 		return strconv.Itoa(r.n(200) - 50), []string{``, `{min: 0}`, `{type: "integer"}`, `{max: 1000, min: -100}`, `{const: true}`, `{optional: true}`, `{nullable: true}`}[r.n(7)]
 	case 1:
 		return `"` + r.pick([]string{"abc", "x", "hello", "a.b", "1.5", "q-1"}) + `"`, []string{``, `{minLength: 1}`, `{type: "string"}`, `{maxLength: 30}`, `{regex: "^[a-z.0-9-]+$"}`, `{optional: true}`}[r.n(6)]
@@ -305,6 +310,7 @@ func (g *gctx) object(ind string) string {
 	r := g.r
 	var sb strings.Builder
 	head := ""
+	apType, lastShortcutVal := "", ""
 	if len(g.names) > 0 && r.pct(25) {
 		if r.pct(50) || len(g.names) < 2 {
 			head = ` // {allOf: "` + r.pick(g.names) + `"}`
@@ -322,7 +328,8 @@ func (g *gctx) object(ind string) string {
 	} else if r.pct(10) {
 		head = r.pick([]string{` // {additionalProperties: true}`, ` // {additionalProperties: "string"}`, ` // {additionalProperties: false}`, ` // {nullable: true}`})
 	} else if len(g.names) > 0 && r.pct(8) {
-		head = ` // {additionalProperties: "` + r.pick(g.names) + `"}`
+		apType = r.pick(g.names)
+		head = ` // {additionalProperties: "` + apType + `"}`
 	}
 	sb.WriteString("{" + head + "\n")
 	n := r.n(4)
@@ -333,7 +340,7 @@ func (g *gctx) object(ind string) string {
 	var keys []string
 	for i := 0; i < n; i++ {
 		key := `"` + r.pick([]string{"a", "b", "c", "id", "name", "k" + strconv.Itoa(r.n(9))}) + strconv.Itoa(i) + `"`
-		if len(g.names) > 0 && r.pct(7) {
+		if len(g.names) > 0 && (r.pct(7) || (apType != "" && r.pct(50)) || (lastShortcutVal != "" && r.pct(40))) {
 			key = r.pick(g.names) // key shortcut
 		}
 		if i >= 1 && r.pct(4) {
@@ -341,6 +348,17 @@ func (g *gctx) object(ind string) string {
 		}
 		keys = append(keys, key)
 		v, a := splitAnn(g.value(in2))
+		if strings.HasPrefix(key, "@") && len(g.names) > 0 && r.pct(50) {
+			// the value of a key shortcut: a user type - often the same one another
+			// shortcut of this object, or its additionalProperties rule, names
+			v, a = r.pick(g.names), ""
+			if apType != "" && r.pct(60) {
+				v = apType
+			} else if lastShortcutVal != "" && r.pct(50) {
+				v = lastShortcutVal
+			}
+			lastShortcutVal = v
+		}
 		sb.WriteString(in2 + key + ": " + v)
 		if i != n-1 {
 			sb.WriteString(",")
@@ -775,6 +793,48 @@ func relayout(r *rng, t string) string {
 	}
 }
 
+// genWide: one schema with many (10-300) properties, each with a DIFFERENT numeric
+// bound, string limit, regex or enum list. Whatever the library memoises per literal,
+// pattern or text has some capacity (8, 64, 1024 entries): a wide schema between the
+// loading and the checking of another object sweeps such a memo.
+func genWide(r *rng) Project {
+	p := Project{Kind: "jschema", Name: []string{"root", "wide.jst"}[r.n(2)]}
+	n := []int{10, 40, 70, 70, 130, 300}[r.n(6)]
+	if r.small && n > 70 {
+		n = 70
+	}
+	base := r.n(1000000)
+	var sb strings.Builder
+	sb.WriteString("{\n")
+	for i := 0; i < n; i++ {
+		k := base + i*7
+		var v string
+		switch r.n(6) {
+		case 0:
+			v = strconv.Itoa(k+1) + " // {min: " + strconv.Itoa(k) + "}"
+		case 1:
+			v = strconv.Itoa(k-1) + " // {max: " + strconv.Itoa(k) + ", min: -" + strconv.Itoa(k) + "}"
+		case 2:
+			v = `"abc" // {maxLength: ` + strconv.Itoa(3+k%5000) + `}`
+		case 3:
+			v = `"a` + strconv.Itoa(k) + `" // {regex: "^a` + strconv.Itoa(k) + `$"}`
+		case 4:
+			v = strconv.Itoa(k) + ` // {enum: [` + strconv.Itoa(k) + `, "v` + strconv.Itoa(k) + `"]}`
+		default:
+			v = strconv.Itoa(k) + ".5 // {precision: 1, min: " + strconv.Itoa(k) + "}"
+		}
+		val, an := splitAnn(v)
+		sb.WriteString("  \"p" + strconv.Itoa(i) + "\": " + val)
+		if i != n-1 {
+			sb.WriteString(",")
+		}
+		sb.WriteString(an + "\n")
+	}
+	sb.WriteString("}")
+	p.Text = sb.String()
+	return p
+}
+
 func genMultiBroken(r *rng) Project {
 	p := Project{Kind: "jschema", Name: []string{"root", "schema.jst"}[r.n(2)]}
 	n := 2 + r.n(3)
@@ -808,6 +868,9 @@ func genProject(r *rng, tornPct int) Project {
 	}
 	if (r.focus == "" || r.focus == "jschema") && r.pct(4) {
 		return genAllOfChain(r)
+	}
+	if (r.focus == "" || r.focus == "jschema") && r.pct(3) {
+		return genWide(r)
 	}
 	var p Project
 	switch c := r.n(100); {
@@ -1178,7 +1241,15 @@ func genWorldC09(seed uint64, proj *Project) *World {
 		}
 		b.MapPerm, b.AddrPolicy = mp, ap
 		ops = append(ops, b)
-		for _, op := range fullScript(o, proj.Kind) {
+		script := fullScript(o, proj.Kind)
+		if o == 1 && proj.Kind != "rschema" && r.pct(50) {
+			// the same questions in another order (a read-only call must not care
+			// what was asked before it; the regex Example() is stateful by design)
+			for i, j := range r.perm(len(script)) {
+				script[i], script[j] = script[j], script[i]
+			}
+		}
+		for _, op := range script {
 			op.MapPerm, op.AddrPolicy = mp, ap
 			ops = append(ops, op)
 		}
@@ -1294,6 +1365,7 @@ func genWorldC10(seed uint64, faults bool) *World {
 func genWorldC11(seed uint64, tornOthers bool) *World {
 	r := &rng{s: seed}
 	w := &World{Prop: "C11", Seed: seed, Cfg: swarmCfg(r, "C11")}
+	r.small = true
 	if r.pct(40) {
 		r.focus = r.pick(allKinds) // swarm: tasks mostly working on one kind of input
 	}
@@ -1311,6 +1383,11 @@ func genWorldC11(seed uint64, tornOthers bool) *World {
 		}
 		if p.Kind == "jsondoc" || p.Kind == "guess" {
 			p = Project{Kind: "jschema", Name: "root", Text: `{"a": 1}`}
+		}
+		if p.Kind == "jschema" && r.pct(40) {
+			// nothing is registered with it, so it is not loaded when the tasks
+			// start (AddType loads): loading, too, happens under contention
+			p.Types, p.Rules = nil, nil
 		}
 		w.Objects = append(w.Objects, p)
 		shared = 0
